@@ -1127,6 +1127,58 @@ func zzC06BTable(rng *rand.Rand) (tab []zzC06Entry, pool [][]string) {
 		e.MC = e.K == "cname" && rng.Intn(4) == 0
 	}
 
+	if rng.Intn(4) == 0 {
+		tab, pool = zzC06BLongChain(rng, tab, pool)
+	}
+
+	return tab, pool
+}
+
+// zzC06BLongChain adds a chain of 7 to 33 CNAME entries over fresh names that
+// ends in a self entry, a cycle of two or three further names, back at its
+// head, in an address, or in a name the table does not mention; the entries
+// are scattered over the table and head, a name in the middle, the name
+// entered after eight links and the tail join the pool of query names.
+func zzC06BLongChain(rng *rand.Rand, tab []zzC06Entry, pool [][]string) (t2 []zzC06Entry, p2 [][]string) {
+	base := zzC06BName(rng)
+	name := func(kind string, i int) (n []string) {
+		return append([]string{fmt.Sprintf("%s%d", kind, i)}, base...)
+	}
+
+	l := []int{7, 8, 9, 16, 33}[rng.Intn(5)]
+	end := rng.Intn(6)
+	cn := func(from, to []string) (e zzC06Entry) {
+		return zzC06Entry{N: from, K: "cname", T: to, DS: rng.Intn(3)}
+	}
+
+	for i := 1; i <= l; i++ {
+		to := name("h", i+1)
+		if i == l {
+			to = name("g", 1)
+			if end == 3 {
+				to = name("h", 1)
+			}
+		}
+
+		tab = append(tab, cn(name("h", i), to))
+	}
+
+	switch end {
+	case 0:
+		tab = append(tab, cn(name("g", 1), name("g", 1)))
+	case 1:
+		tab = append(tab, cn(name("g", 1), name("g", 2)), cn(name("g", 2), name("g", 1)))
+	case 2:
+		tab = append(tab, cn(name("g", 1), name("g", 2)), cn(name("g", 2), name("g", 3)), cn(name("g", 3), name("g", 1)))
+	case 4:
+		tab = append(tab, zzC06Entry{N: name("g", 1), K: "ip4", IP: zzC06BV4[0], T: []string{}})
+	default:
+		// Back at the head (3), or the tail is not in the table (5).
+	}
+
+	rng.Shuffle(len(tab), func(i, j int) { tab[i], tab[j] = tab[j], tab[i] })
+	pool = append(pool, name("h", 1), name("h", 1), name("h", 2), name("h", 9), name("h", l), name("g", 1), name("g", 2))
+
 	return tab, pool
 }
 
